@@ -1281,6 +1281,84 @@ def gen_store_correspond(ctx, n_cases):
         if out.split() != impl.split():
             ctx.disagree("SkaModel.Gen.WrapperGen fit.store (translated from the current source) vs IndexClassifierWrapper.fit",
                          dict(case, line=line), out, impl)
+    gen_native_correspond(ctx, n_cases)
+
+
+def gen_native_correspond(ctx, n_cases):
+    """The native branch of `partial_fit` translated from the current source, executed on the recording classifier's histories
+    (`clf_`, `base_clf_`) the real object held before a real `partial_fit` and compared with the histories it holds afterwards
+    (which native calls each classifier object has received: sharing or a missing deep copy shows up as a longer history)."""
+    from skactiveml.pool.utils import IndexClassifierWrapper
+
+    rng = ctx.rng
+
+    def hist(w, a):
+        """the index lists of the calls the classifier object behind attribute `a` has received (None: attribute absent)"""
+        if a not in w.__dict__:
+            return None
+        return [[int(r[0] // 2) for r in rec[1]] for rec in w.__dict__[a].hist_]
+
+    def enc(h):
+        return "0" if h is None else f"1 {len(h)} " + " ".join(f"{len(x)} " + " ".join(map(str, x)) for x in h)
+
+    def show(h):
+        return "absent" if h is None else " ; ".join(" ".join(map(str, x)) for x in h)
+
+    lines, expect = [], []
+    for _ in range(n_cases):
+        n = rng.randint(3, 8)
+        X = np.arange(2 * n, dtype=float).reshape(n, 2)
+        y_full = np.array([float(rng.randrange(3)) for _ in range(n)])
+        sw_full = np.array([float(rng.randint(1, 4)) for _ in range(n)]) if rng.random() < 0.5 else None
+        w = IndexClassifierWrapper(make_clf("spypf"), X, y_full, sample_weight=sw_full, set_base_clf=False, ignore_partial_fit=False,
+                                   enforce_unique_samples=False, use_speed_up=False, missing_label=NAN)
+
+        def args(neg=False):
+            k = rng.randint(1, n)
+            idx = [rng.randrange((-n - (2 if rng.random() < 0.15 else 0)) if neg else 0, n) for _ in range(k)]
+            y = None if rng.random() < 0.5 else [float(rng.randrange(3)) for _ in idx]
+            sw = None if rng.random() < 0.5 else [float(rng.randint(1, 4)) for _ in idx]
+            return idx, y, sw
+
+        try:
+            with warnings.catch_warnings():
+                warnings.simplefilter("ignore")
+                i0, y0, s0 = args()
+                w.fit(i0, y=y0, sample_weight=s0, set_base_clf=rng.random() < 0.6)
+                for _k in range(rng.choice([0, 1, 2])):
+                    i1, y1, s1 = args()
+                    w.partial_fit(i1, y=y1, sample_weight=s1, use_base_clf=("base_clf_" in w.__dict__ and rng.random() < 0.4),
+                                  set_base_clf=rng.random() < 0.3)
+        except Exception:  # noqa: BLE001
+            ctx.count("generated_native_setup_raised")
+            continue
+        pre_c, pre_b = hist(w, "clf_"), hist(w, "base_clf_")
+        idx, y, sw = args(neg=True)
+        ub = pre_b is not None and rng.random() < 0.5
+        sb = rng.random() < 0.5
+        try:
+            with warnings.catch_warnings():
+                warnings.simplefilter("ignore")
+                w.partial_fit(idx, y=y, sample_weight=sw, use_base_clf=ub, set_base_clf=sb)
+            impl = f"clf {show(hist(w, 'clf_'))} | base {show(hist(w, 'base_clf_'))}"
+        except Exception as e:  # noqa: BLE001
+            impl = err_enum(e)
+        if impl.startswith("err") and impl != "err index":
+            ctx.count("generated_native_rejected_by_validation")     # raised before the branch (argument checks)
+            continue
+        ctx.count("generated_native_cases")
+        ctx.count(f"generated_native_usebase{int(ub)}_setbase{int(sb)}" + ("_indexerror" if impl.startswith("err") else ""))
+        blk_sw = sw if (sw is not None or sw_full is None) else [1.0] * len(idx)     # only its None-ness matters to the branch
+        lines.append(f"g_iw_native {n} {int(ub)} {int(sb)} {enc(pre_c)} {enc(pre_b)} {len(idx)} " + " ".join(map(str, idx))
+                     + f" {len(idx)} " + " ".join("0" for _ in idx) + (" 0" if blk_sw is None else f" 1 {len(idx)} " + " ".join("1" for _ in idx)))
+        expect.append((impl, dict(n=n, use_base_clf=ub, set_base_clf=sb, idx=idx)))
+    outs = vlib.run_driver([" ".join(l.split()) for l in lines], exe=vlib.WRAPGENDRIVER)
+    for line, out, (impl, case) in zip(lines, outs, expect):
+        # the recording classifier sees rows of X, the model index values: numpy's wrap-around of negative indices
+        out = " ".join((str(int(t) + case["n"]) if t.lstrip("-").isdigit() and int(t) < 0 else t) for t in out.split())
+        if out.split() != impl.split():
+            ctx.disagree("SkaModel.Gen.WrapperGen partial_fit.native (translated from the current source) vs IndexClassifierWrapper.partial_fit",
+                         dict(case, line=line), out, impl)
 
 
 def correspond(ctx):
